@@ -117,6 +117,46 @@ class ImplWorld(ImplExt):
         self.trace = []
         self.inside_bad = []
 
+    def cmd_fork(self, ts):
+        """From here on the scenario goes on with a COPY of the dispatcher and all its observers (deep copy; `fork pickle`: a pickle round
+        trip where everything pickles); the original stays alive and is driven elsewhere (reset, then one dispatch), so that whatever
+        the copy still shares with it shows.  A copy is a dispatcher like any other: the model does nothing on `fork`."""
+        import copy as _copy
+        import pickle as _pickle
+        keys = [k for k in ("dispatcher", "instance", "ops", "heap", "fheap", "unsched_observer", "trace") if hasattr(self, k)]
+        state = {k: getattr(self, k) for k in keys}
+        recorders = [o for o in state.get("heap", []) if isinstance(o, Recorder)]
+        for o in recorders:
+            o.world = None
+        try:
+            new = None
+            if ts and ts[0] == "pickle":
+                try:
+                    new = _pickle.loads(_pickle.dumps(state))
+                except Exception:  # pylint: disable=broad-except
+                    new = None      # (closures - composite filters - and local classes do not pickle)
+            if new is None:
+                new = _copy.deepcopy(state)
+        except Exception as e:  # pylint: disable=broad-except
+            for o in recorders:
+                o.world = self
+            return f"copy-raised {type(e).__name__}"
+        old = self.dispatcher
+        for k, v in new.items():
+            setattr(self, k, v)
+        for o in [o for o in new.get("heap", []) if isinstance(o, Recorder)]:
+            o.world = self
+        if self.dispatcher is old or self.dispatcher.schedule is old.schedule:
+            return "copy-inconsistent the copy is the original"
+        try:
+            old.reset()
+            ready = old.available_operations()
+            if ready:
+                old.dispatch(ready[-1], ready[-1].machines[-1])
+        except Exception as e:  # pylint: disable=broad-except
+            return f"sibling-error the original failed after it was copied: {type(e).__name__}"
+        return "ok"
+
     def _register(self, obs, kind, subscribed=True):
         self.heap.append(obs)
         self.kinds.append(kind)
@@ -1109,6 +1149,10 @@ class ImplViz(ImplGen):
 
     def cmd_ticks(self, ts):
         xlim = None if ts[0] == "-" else int(ts[0])
+        if xlim is not None:
+            # the limit arrives as whatever integer type the caller computes with (a makespan taken from a numpy array, say)
+            self._xl = getattr(self, "_xl", 0) + 1
+            xlim = [int, _np.int64, _np.int32, int, _np.uint16][self._xl % 5](xlim) if xlim < 2 ** 15 else xlim
         with _warnings.catch_warnings():
             _warnings.simplefilter("ignore")
             fig, ax = _pgc.plot_gantt_chart(self.dispatcher.schedule, xlim=xlim, number_of_x_ticks=int(ts[1]))
@@ -1171,8 +1215,11 @@ class ImplViz(ImplGen):
         tmp = _tempfile.mkdtemp(prefix="verif_frames_")
         # any frame rate and loop count the caller likes: the GIF shows every frame, whatever the speed
         fps = [1, 2, 24, 50, 60, 120, 144, 1000][(len(hist) * 5 + sum(x[0] for x in hist)) % 8]
+        tmpv = _tempfile.mkdtemp(prefix="verif_vframes_")
         creator = GanttChartCreator(d2, gif_config={"frames_dir": tmp, "remove_frames": False, "fps": fps,
-                                                    "gif_path": _os.path.join(tmp, "x.gif")})
+                                                    "gif_path": _os.path.join(tmp, "x.gif")},
+                                    video_config={"frames_dir": tmpv, "remove_frames": False, "fps": fps,
+                                                  "video_path": _os.path.join(tmpv, "x.mp4")})
         creator.partial_gantt_chart_plotter = plot_function
         # the real create_gif_from_frames / _load_images run; `imageio` is replaced (a frame "image" is the text of its file, the
         # "GIF" is the list of images handed to mimsave) and the directory is listed in a hostile order
@@ -1215,12 +1262,35 @@ class ImplViz(ImplGen):
             creator.create_gif()
             # what the GIF is assembled from: the images the real pipeline handed to the GIF writer
             shown = [str(x) for x in written[-1][0]] if written else ["no-gif-written"]
+            # the video of the same history: the real create_video_from_frames (frames loaded, padded to the macro block size, handed to
+            # the writer); here an "image" is a small array of odd size that carries the number of the frame text it stands for
+            table = []
+
+            class _ImageioV:
+                @staticmethod
+                def imread(path):
+                    with open(path, encoding="utf-8") as fh:
+                        table.append(fh.read())
+                    k = len(table) - 1
+                    arr = _np.zeros((5 + k % 3, 7 + k % 5, 3), dtype=_np.uint8)
+                    arr[0, 0, 0], arr[0, 0, 1], arr[-1, -1, 2] = k % 256, k // 256, 255
+                    return arr
+
+                mimsave = _Imageio.mimsave
+
+            _vid.imageio = _ImageioV
+            written.clear()
+            sink.clear()
+            creator.create_video()
+            shown_v = [table[int(a[0, 0, 0]) + 256 * int(a[0, 0, 1])] for a in written[-1][0]] if written else ["no-video-written"]
         finally:
+            _shutil.rmtree(tmpv, ignore_errors=True)
             _vid.plt.close = old_close
             _vid.imageio, _vid.os = old_io, old_os
             _shutil.rmtree(tmp, ignore_errors=True)
         facade = f"xlim {seen.get('xlim', 0)} " + " / ".join(shown)
-        return direct if facade == direct else facade
+        video = f"xlim {seen.get('xlim', 0)} " + " / ".join(shown_v)
+        return direct if facade == direct == video else facade if facade != direct else video
 
 
 # ----------------------------------------------------------------------------------- Gymnasium environments (C18)
